@@ -147,10 +147,27 @@ where
         let _ = install_log_config(&mut state);
     }
     if case.stale_state {
-        // what an earlier run on the same state left behind; initialisation has to reset it
+        // the caller re-uses the state of an earlier run of the same configuration: every counter
+        // and memory that run left behind is still there; initialisation has to reset them
         state.insert(Evaluations(137));
         state.insert(Iterations(11));
-        bump(&mut data.lock().unwrap().counters, "fault:stale-state-from-an-earlier-run", 1);
+        let warm = guarded(|| config.run(problem, &mut state));
+        if let Ok(Ok(())) = warm {
+            bump(&mut data.lock().unwrap().counters, "fault:stale-state-from-an-earlier-run", 1);
+        }
+        // the caller starts the next run from an empty population stack and a fresh generator
+        if let Ok(mut pops) = state.try_borrow_mut::<Populations<P>>() {
+            while pops.try_pop().is_some() {}
+        }
+        state.insert(Random::with_rng::<SimRng>(case.seed));
+        problem.instr().reset();
+        tests.store(0, Ordering::SeqCst);
+        trues.store(0, Ordering::SeqCst);
+        rng::take_words_drawn();
+        match case.fault {
+            TFault::ExtremeDraw { at, max } => rng::arm_extreme_draw(Some((at, if max { u64::MAX } else { 0 }))),
+            _ => rng::arm_extreme_draw(None),
+        }
     }
     state.insert(ObserverSlot::new(Obs::<P>::new(case.clone(), data.clone())));
     let r = guarded(|| config.run(problem, &mut state));
@@ -226,7 +243,16 @@ where
             }
         }
     }
-    if !matches!(case.fault, TFault::NoEvaluator | TFault::WrongEvaluatorId | TFault::StepFail(_)) {
+    if let TFault::SwarmResize { .. } = case.fault {
+        // once the population no longer matches the swarm state, the next swarm update refuses:
+        // the run fails with an error (a resize in the very last pass goes unnoticed)
+        match &report.result {
+            RunResult::Panic(p) => d.violate("C18", "pso-unaligned-collections-panic", format!("{tname}: {p}")),
+            RunResult::Err(_) if !d.injected => d.violate("C16", format!("run-failed template={tname} kind=error"), format!("{tname}: run failed before the injected resize")),
+            RunResult::Err(_) => d.probe("swarm update refused unaligned collections"),
+            _ => {}
+        }
+    } else if !matches!(case.fault, TFault::NoEvaluator | TFault::WrongEvaluatorId | TFault::StepFail(_)) {
         match &report.result {
             RunResult::Ok => {}
             RunResult::Err(e) => {
